@@ -304,6 +304,11 @@ class TransferManager(BaseManager):
                 "Could not make the desired state transition"
             )
 
+        if transfer.is_upload():
+            # An upload for a user that is blocked or for a file that is no
+            # longer shared should not be started: have it evaluated again
+            self.request_management_cycle(_RequestFlag.SHARES_CHANGE)
+
     async def pause(self, transfer: Transfer):
         if transfer not in self.transfers:
             raise TransferNotFoundError(
